@@ -490,6 +490,8 @@ def c14_e1():
     return [
         J("c14_entity_conversions", Q, 60, what="from_raw/raw, TryFrom/from_any/into_any, reference casts, generated SelectEntity/SelectArchetype/__SelectTotal tables, Eq/Hash", bounds=b),
         J("c14_direct_conversions", Q, 60, what="same for direct handles and SelectEntityDirect", bounds=b),
+        J("c14_entity_conversions", Q, 60, what="same under feature wrapping_version (the feature documents a change of the overflow behaviour only: from_raw still rejects exactly a zero generation, every conversion is unchanged)", bounds=b, features=("wrapping_version",)),
+        J("c14_direct_conversions", T, 60, what="direct-handle conversions under wrapping_version", bounds=b, features=("wrapping_version",)),
         J("c14_tables_descending_ids", Q, 100, what="generated tables of a world whose explicit ids descend in declaration order: entity AND direct handles select their own archetype's variant; world-level dynamic-key calls routed accordingly", bounds=b),
         J("c14_created_ids", Q, 100, what="archetype_id() of created handles == ARCHETYPE_ID; From<Entity<A>> for Select*", bounds=b, assumes=(INV_ASSUME,)),
         # conversions performed by the LOOKUP API (to_direct = entity handle -> direct handle) on handles of another archetype:
